@@ -9,7 +9,9 @@ from harness import timeouts as T
 from harness.base import Results, corpus_lines
 from harness.c11 import parse_prog, _forms
 
-RULE = ('case = (timeout program, external cancel instant); for every program (enumerated '
+RULE = ('case = (timeout program, external cancel instant), plus (task-group program inside '
+        'timeouts with earlier handled inner timeouts, members with slow reactions / daemons / own '
+        'handled timeouts, cancel instant) judged by the oracle only; for every program (enumerated '
         'nesting family + seeded random programs, normal and tie-prone grids) task.cancel() is '
         'injected at EVERY odd virtual instant of its lifetime (deadlines and wake-ups are even, '
         'so the instant never coincides with a deadline); non-trivial = cancel delivered while '
@@ -94,9 +96,193 @@ def evaluate(ctx, progs, res, only_cancel=None):
     res['evaluations'] += len(flat)
 
 
+# ---------------------------------------------------------------- task groups inside timeouts
+def gen_group_case(r):
+    """(outer far timeout?, handled inner timeout first?, members [(dur, react, daemon,
+    had_timeout)], body duration, policy)"""
+    members = [(r.choice([4, 8, 20, 60]), r.choice([0, 0, 2, 6]), r.random() < 0.3,
+                r.random() < 0.4) for _ in range(r.randint(1, 3))]
+    return {'outer': r.choice([None, 'timeout', 'ignore']), 'prelude': r.random() < 0.6,
+            'members': members, 'body': r.choice([0, 2, 6, 30]),
+            'policy': r.choice(['all', 'any', 'object'])}
+
+
+def run_group_case(impl, case, cancel):
+    """cancel: odd virtual instant of task.cancel(), or None"""
+    import asyncio
+    from harness import vloop
+    c = impl.curio
+    WAIT = {'all': all, 'any': any, 'object': object}
+    obs = {}
+
+    async def member(dur, react, had_timeout):
+        if had_timeout:
+            async with c.ignore_after(0):
+                await c.sleep(2)
+        try:
+            await c.sleep(dur)
+        except c.CancelledError:
+            if react:
+                await c.sleep(react)
+            raise
+        return dur
+
+    async def victim(tasks):
+        async def inner():
+            if case['prelude']:
+                # an inner timeout that expires and is handled before the group is entered
+                try:
+                    async with c.timeout_after(2):
+                        await c.sleep(100)
+                except c.TaskTimeout:
+                    pass
+            async with c.TaskGroup(wait=WAIT[case['policy']]) as g:
+                for (dur, react, daemon, had) in case['members']:
+                    tasks.append(await g.spawn(member(dur, react, had), daemon=daemon))
+                await c.sleep(case['body'])
+        if case['outer'] == 'timeout':
+            async with c.timeout_after(5000):
+                await inner()
+        elif case['outer'] == 'ignore':
+            async with c.ignore_after(5000):
+                await inner()
+        else:
+            await inner()
+
+    async def top():
+        loop = asyncio.get_event_loop()
+        tasks = []
+        task = asyncio.ensure_future(victim(tasks))
+        delivered = []
+        if cancel is not None:
+            def do_cancel():
+                delivered.append(not task.done())
+                # where is the task suspended right now? (classification of findings only)
+                names, co = [], task.get_coro()
+                while co is not None and hasattr(co, 'cr_code'):
+                    names.append(co.cr_code.co_name)
+                    co = co.cr_await
+                obs['suspended_in'] = names
+                obs['running_at_cancel'] = [not t.done() for t in tasks]
+                task.cancel()
+            loop.call_at(cancel, do_cancel)
+        try:
+            await task
+            r = 'ok'
+        except BaseException as e:
+            r = impl.cls(e)
+        obs['res'] = r
+        obs['t'] = int(loop.time())
+        obs['deliv'] = int(bool(delivered and delivered[0]))
+        obs['task_cancelled'] = task.cancelled()
+        obs['members_done'] = [t.done() for t in tasks]
+        obs['members_cancelled'] = [t.done() and t.cancelled() for t in tasks]
+        obs['dl'] = len(getattr(task, '_deadlines', []))
+        obs['armed'] = int(any(not h.cancelled() and 'timeout_task' in repr(h)
+                               for h in loop._scheduled))
+        for t in tasks:
+            t.cancel()
+    try:
+        vloop.run(top())
+    except vloop.Deadlock:
+        obs['res'] = 'Deadlock'
+    except vloop.Livelock:
+        obs['res'] = 'Livelock'
+    return obs
+
+
+def group_oracle(case, cancel, o):
+    bad = []
+    if o['res'] in ('Deadlock', 'Livelock'):
+        return [('c12:group-hang', f'cancelled task inside a TaskGroup never finishes: {o["res"]}')]
+    if o['deliv']:
+        if o['res'] != 'C' or not o['task_cancelled']:
+            bad.append(('c12:group-cancel-replaced',
+                        f'task.cancel() at {cancel} while in a TaskGroup (inside timeouts) ended '
+                        f'with {o["res"]} instead of being cancelled'))
+        if not all(o['members_done']):
+            key = 'c12:group-members-left'
+            if '_cancel_tasks' in o.get('suspended_in', []):
+                # the group had already started cancelling (member failure / policy stop) and
+                # was awaiting those members when the external cancel came: F11
+                key = 'c12:cancelled-while-join-awaits-cancelled-members'
+            bad.append((key,
+                        f'cancelled at {cancel}: the task ended but group members are still '
+                        f'running {o["members_done"]}'))
+        # the clean-up a group promises: every member still running when the cancellation
+        # arrived is cancelled (not left to run to completion).  The group cancels in two
+        # sweeps: non-daemonic members first (awaited), daemons afterwards - a daemon may
+        # therefore legitimately finish by itself while the first sweep is being awaited.
+        rac = o.get('running_at_cancel', [])
+        start = 2 if case['prelude'] else 0
+        nd_react = max([m[1] for m, run in zip(case['members'], rac) if run and not m[2]],
+                       default=0)
+        dm_react = max([m[1] for m, run in zip(case['members'], rac) if run and m[2]], default=0)
+        in_sweep = '_cancel_tasks' in o.get('suspended_in', [])
+        not_cancelled = []
+        for i, (m, run, canc, dn) in enumerate(zip(case['members'], rac, o['members_cancelled'],
+                                                   o['members_done'])):
+            if run and dn and not canc:
+                if m[2] and start + m[0] <= cancel + nd_react:
+                    continue
+                not_cancelled.append(i)
+        if not_cancelled and not in_sweep:
+            bad.append(('c12:group-members-not-cancelled',
+                        f'cancelled at {cancel}: members {not_cancelled} were running then but '
+                        f'were never cancelled (they ran to completion)'))
+        # ... and the task ends as soon as the slowest reactions allow
+        if o['res'] == 'C' and o['t'] > cancel + nd_react + dm_react and not in_sweep:
+            bad.append(('c12:group-cancel-not-prompt',
+                        f'cancelled at {cancel}, slowest reactions {nd_react}+{dm_react}, but '
+                        f'the task only ended at {o["t"]}'))
+    if o['dl'] or o['armed']:
+        bad.append(('c12:timer-left-armed', f'deadlines {o["dl"]} armed {o["armed"]} after the end'))
+    return bad
+
+
+def _group_work(args):
+    repo, cases = args
+    impl = T.Impl(repo)
+    out = []
+    for case in cases:
+        base = run_group_case(impl, case, None)
+        end = base.get('t', 0) if base['res'] not in ('Deadlock', 'Livelock') else 0
+        runs = [(None, base)]
+        for cc in range(1, min(end, 80) + 2, 2):
+            runs.append((cc, run_group_case(impl, case, cc)))
+        out.append(runs)
+    return out
+
+
+def evaluate_groups(ctx, cases, res):
+    if len(cases) < 200:
+        allruns = _group_work((ctx.repo, cases))
+    else:
+        nproc = min(16, os.cpu_count() or 1)
+        size = max(50, len(cases) // (nproc * 3))
+        jobs = [(ctx.repo, cases[i:i + size]) for i in range(0, len(cases), size)]
+        with Pool(nproc) as pool:
+            allruns = [x for part in pool.map(_group_work, jobs) for x in part]
+    n = 0
+    for case, runs in zip(cases, allruns):
+        for cc, o in runs:
+            n += 1
+            cs = {'group_case': case, 'cancel': cc}
+            for key, why in group_oracle(case, cc, o):
+                res.violation(key, cs, why, impl=str(o))
+            res.count('group_runs')
+            res.count('group_cancel_delivered', o.get('deliv', 0))
+            if o.get('deliv'):
+                res.nontrivial(('group', str(case), cc))
+    res['evaluations'] += n
+
+
 def run(ctx):
     res = Results()
     rng = ctx.rng
+    ng = 4000 if ctx.deep else 500
+    evaluate_groups(ctx, [gen_group_case(rng) for _ in range(ng)], res)
+    res['scopes']['group_programs'] = ng
     corp = []
     for ln in corpus_lines(ctx.verif, 'C12'):
         c, rest = ln.split(' ', 1)
@@ -120,6 +306,13 @@ def replay(ctx, case):
     if isinstance(case.get('case'), dict):
         case = case['case']
     res = Results()
+    if 'group_case' in case:
+        impl = T.Impl(ctx.repo)
+        o = run_group_case(impl, case['group_case'], case.get('cancel'))
+        for key, why in group_oracle(case['group_case'], case.get('cancel'), o):
+            res.violation(key, case, why, impl=str(o))
+        res['evaluations'] += 1
+        return res.finish('replay of one recorded group case')
     evaluate(ctx, [parse_prog(case['program'], case.get('forms', ''))], res,
              only_cancel=case.get('cancel'))
     return res.finish('replay of one recorded case')
